@@ -30,16 +30,20 @@ def VOpts.ofNat (n : Nat) : VOpts :=
 /-- closed enum of the validation errors (`LY_VCODE_*` of ly_common.h; all carry `LYVE_DATA`) -/
 inductive EKind where
   | dup | dupCase | noMand | noMandChoice | noMin | noMax | noUniq | unexpState | badValue | noKey
+  /-- XPath-dependent constraints (LyModel/Valid/XpValid.lean): `must` false, leafref without target instance, `when` false on an
+  explicit node, an expression that cannot be evaluated -/
+  | noMust | noReqInst | noWhen | xpErr
   deriving Repr, BEq, DecidableEq, Inhabited
 
 def EKind.name : EKind → String
   | .dup => "Dup" | .dupCase => "DupCase" | .noMand => "NoMand" | .noMandChoice => "NoMandChoice" | .noMin => "NoMin"
   | .noMax => "NoMax" | .noUniq => "NoUniq" | .unexpState => "UnexpState" | .badValue => "BadValue" | .noKey => "NoKey"
+  | .noMust => "NoMust" | .noReqInst => "NoReqInst" | .noWhen => "NoWhen" | .xpErr => "Other"
 
 /-- the error-app-tag `LOGVAL_APPTAG` attaches (RFC 7950 §15) -/
 def EKind.appTag : EKind → String
   | .noMandChoice => "missing-choice" | .noMin => "too-few-elements" | .noMax => "too-many-elements"
-  | .noUniq => "data-not-unique" | _ => "-"
+  | .noUniq => "data-not-unique" | .noMust => "must-violation" | .noReqInst => "instance-required" | _ => "-"
 
 structure VErr where
   kind : EKind
